@@ -187,7 +187,9 @@ func sysHandWritten() []sysIn {
 	}
 }
 
-func genSys(out *proto.Out, rng *proto.Rng, tier string) {
+func genSys(out *proto.Out, rng *proto.Rng, tier string) { genSysNamed("sys", out, rng, tier) }
+
+func genSysNamed(name string, out *proto.Out, rng *proto.Rng, tier string) {
 	cases := sysHandWritten()
 	n := 500
 	if tier == "thorough" {
@@ -210,6 +212,6 @@ func genSys(out *proto.Out, rng *proto.Rng, tier string) {
 	}
 	wg.Wait()
 	for i := range cases {
-		out.Emit("sys", cases[i], res[i])
+		out.Emit(name, cases[i], res[i])
 	}
 }
